@@ -10,3 +10,29 @@ C03_UNDECIDED = {
 
 # the property itself excludes these formats (compact() deliberately drops what validate() inspects)
 C03_EXCLUDED_BY_PROPERTY = ['stdnum.isan', 'stdnum.meid', 'stdnum.us.ssn', 'stdnum.us.itin', 'stdnum.us.ein', 'stdnum.us.atin', 'stdnum.us.tin']
+
+# Sinks / results the STRABS interpreter cannot decide (key: module|function|construct).
+_US = ('validate() matches its pattern on clean(number, \'\').strip() and returns compact(number): two different cleanings of the '
+       'raw argument whose relation (both non-empty together) is not a character-class fact')
+_STNR = 'de.stnr keeps its patterns in instances of a local class (_Format); instance methods are not modelled'
+C01_UNDECIDED_SINKS = {
+    "stdnum.cz.bankaccount|_calc_checksum|int(n)": 'the number is rebuilt by compact() from optional regex groups (zfill/join); positions are lost before the digit gate is re-applied',
+    "stdnum.de.handelsregisternummer|validate|' '.join((x for x in [court, registry, number, qualifier] if x))": 'free-text court name handled by _split(); tuple of optional parts is not modelled',
+    "stdnum.de.handelsregisternummer|validate|returns empty-str": 'free-text court name handled by _split(); tuple of optional parts is not modelled',
+    "stdnum.de.stnr|validate|(region_fmt.match(number) or country_fmt.match(number) for _region, region_fmt, country_fmt in _get_formats(region))": _STNR,
+    "stdnum.de.stnr|validate|region_fmt.match": _STNR,
+    "stdnum.de.stnr|validate|region_fmt.match(number)": _STNR,
+    "stdnum.de.stnr|validate|country_fmt.match": _STNR,
+    "stdnum.de.stnr|validate|country_fmt.match(number)": _STNR,
+    "stdnum.mac|is_universally_administered|int(number[:2], 16)": 'compact() is re-applied to the already compact value and rebuilds it through split(\':\')/join; the per-position facts of the pattern gate are lost',
+    "stdnum.ro.onrc|validate|county, serial, year = number[1:].split('/')": 'split(\'/\') of a string whose pattern has exactly two slashes: segment structure is not modelled',
+    "stdnum.ro.onrc|validate|int(county)": 'split(\'/\') of a string whose pattern has exactly two slashes: segment structure is not modelled',
+    "stdnum.se.personnummer|get_birth_date|int('%d%s' % (century, number[0:2]))": 'compact() rebuilds the number around the sign character (replace on a slice); positions are lost',
+    "stdnum.us.ein|get_campus|numdb.get('us/ein').info(number)[0]": _US,
+    "stdnum.us.ein|validate|returns empty-str": _US,
+    "stdnum.us.atin|validate|returns empty-str": _US,
+    "stdnum.us.itin|validate|returns empty-str": _US,
+    "stdnum.us.ssn|validate|returns empty-str": _US,
+    "stdnum.us.tin|validate|returns empty-str": _US,
+    "stdnum.isil|validate|returns empty-str": 'emptiness is excluded by the registry lookup of the agency prefix (an empty agency is unknown), not by a gate on the string',
+}
